@@ -228,6 +228,28 @@ def run(facts, res):
             dpos = {n: [c03._writer_tag(e) for e in els] for n, els, _, _ in tables.array_literals(dj)}
             if dpos != wpos:
                 res.violation("G4", "stage-vs-block-layout", "stage records %s and block records %s use different layouts" % (wpos, dpos), st.loc())
+    # G4b: the consumers of record lists (whose order comes from a hash map) insert every record unconditionally:
+    # no insertion may depend on what earlier records already put into the tree
+    TREE_QUERIES = {"get_revisions", "get_leafs", "get_winner", "get_parent", "has_staging"}
+    for fn in ("melda::Melda::replay_stage", "melda::Melda::apply_delta"):
+        fb = facts.body(fn)
+        if fb is None:
+            continue
+        for bi, t in fb.calls():
+            if t.callee is None or t.callee.target() not in ("revisiontree::RevisionTree::add", "revisiontree::RevisionTree::unvalidated_add"):
+                continue
+            dep = []
+            for l in lits_of(fb, bi, facts):
+                terms = [l.term] if l.kind != "call" else [l.term]
+                for tt in terms:
+                    for x in walk(tt):
+                        if x[0] == "call" and x[4] is not None and x[4].impl_self == "revisiontree::RevisionTree" and callee_name(x) in TREE_QUERIES:
+                            dep.append(callee_name(x))
+            res.instance("G4", "%s: insertion of a record does not depend on the tree's current content: %s" % (fn, not dep), fb.loc(t.line))
+            if dep:
+                res.violation("G4", "%s|insertion-depends-on-tree-content" % fn,
+                              "%s inserts a revision only under a condition on the tree's current content (%s): records arrive in hash-map order, so the "
+                              "result depends on that order (a child exported before its parent is dropped)" % (fn, sorted(set(dep))), fb.loc(t.line))
     dst = facts.body("datastorage::DataStorage::stage")
     drp = facts.body("datastorage::DataStorage::replay_stage")
     if dst is not None and drp is not None:
